@@ -35,6 +35,9 @@ type Case struct {
 	// of frames; its per-channel length may then exceed its per-channel capacity.
 	Grown    int `json:"grown,omitempty"`
 	GrownPre int `json:"grownPre,omitempty"`
+	// Huge > 0: a root of Huge frames (tens of millions of samples); only the shape of a few
+	// windows and the sharing of their first and last samples are checked (see runHuge).
+	Huge int `json:"huge,omitempty"`
 }
 
 var table = map[string]func(*Case) kit.Result{}
@@ -65,7 +68,60 @@ func Check(c *Case) kit.Result {
 	if !ok || c.C < 1 || c.Kr < 0 || c.C*c.Kr > 1<<22 || len(c.Steps) > 16 {
 		return kit.Result{}
 	}
+	if c.Huge > 0 && (c.C > 8 || c.Huge > 1<<26 || c.C*c.Huge > 1<<26 || kit.Info(c.T).Bits > 16) {
+		return kit.Result{}
+	}
 	return f(c)
+}
+
+// runHuge: windows of a root holding more than 2^24 samples. Only headers and the sharing of
+// the first and last sample of each window are checked (a full snapshot would cost gigabytes).
+func runHuge[T signal.SignalTypes](c *Case) (res kit.Result) {
+	C, K := c.C, c.Huge
+	root := signal.Alloc[T](signal.Allocator{Channels: C, Length: K, Capacity: K})
+	bits := kit.BitsOf[T]()
+	if h := kit.HdrOf(root); h != kit.ModelHdr(C, C*K, C*K, bits) {
+		res.Failf("root of %d frames x %d channels reports %+v, want %+v", K, C, h, kit.ModelHdr(C, C*K, C*K, bits))
+		return
+	}
+	for i, w := range [][2]int{{0, K}, {3, K}, {3, K - 2}, {1, K - 1}, {K / 2, K}, {0, K/2 + 1}, {5, 5}} {
+		s, e := w[0], w[1]
+		if s < 0 || e < s || e > K {
+			continue
+		}
+		var v *signal.Buffer[T]
+		if p, pv := kit.Try(func() { v = root.Slice(s, e) }); p {
+			res.Failf("Slice(%d,%d) of a root of %d frames x %d channels panicked: %v", s, e, K, C, pv)
+			return
+		}
+		want := kit.ModelHdr(C, C*(e-s), C*(K-s), bits)
+		if h := kit.HdrOf(v); h != want {
+			res.Failf("Slice(%d,%d) of a root of %d frames x %d channels reports %+v, want %+v", s, e, K, C, h, want)
+			return
+		}
+		if m := kit.RawMismatch(v, want); m != "" {
+			res.Failf("Slice(%d,%d) of a root of %d frames x %d channels: %s", s, e, K, C, m)
+			return
+		}
+		if e > s {
+			first, last := T(11+i), T(37+i)
+			v.SetSample(0, first)
+			v.SetSample(C*(e-s)-1, last)
+			if e-s == 1 && C == 1 {
+				first = last
+			}
+			if g := root.Sample(C * s); g != first {
+				res.Failf("Slice(%d,%d): wrote %v to the window's sample 0, the root's sample %d reads %v", s, e, first, C*s, g)
+				return
+			}
+			if g := root.Sample(C*e - 1); g != last {
+				res.Failf("Slice(%d,%d): wrote %v to the window's last sample, the root's sample %d reads %v", s, e, last, C*e-1, g)
+				return
+			}
+		}
+	}
+	res.Class("windowsOfMoreThan2^24Samples")
+	return
 }
 
 func mulOverflows(c, x int) bool {
@@ -153,6 +209,9 @@ func runGrown[T signal.SignalTypes](c *Case) (res kit.Result) {
 func run[T signal.SignalTypes](c *Case) (res kit.Result) {
 	if c.Grown > 0 {
 		return runGrown[T](c)
+	}
+	if c.Huge > 0 {
+		return runHuge[T](c)
 	}
 	C := c.C
 	bits := kit.BitsOf[T]()
@@ -362,6 +421,7 @@ func run[T signal.SignalTypes](c *Case) (res kit.Result) {
 func FP(c *Case) uint64 {
 	h := kit.NewHasher()
 	h.Str(c.T)
+	h.Int(c.Huge)
 	h.Ints([]int{c.C, c.Kr, len(c.Steps), c.Grown, c.GrownPre})
 	for _, s := range c.Steps {
 		h.Int(s.S)
